@@ -7,6 +7,7 @@ import time
 
 from . import VERIF
 
+EVDIR = os.environ.get("BBVERIF_EVIDENCE_DIR") or os.path.join(VERIF, "evidence")   # the seeded-mutant runner redirects evidence away from /verif/evidence
 DISCHARGED, REFUTED, INCONCLUSIVE, KNOWN, INFO = "discharged", "refuted", "inconclusive", "known", "info"
 
 
@@ -111,7 +112,7 @@ class Report:
         replay = None
         if refuted:
             code = 1
-            replay = os.path.join(VERIF, "evidence", "%s.violations.json" % self.prop)
+            replay = os.path.join(EVDIR, "%s.violations.json" % self.prop)
             with open(replay, "w") as f:
                 json.dump([dict(o.as_dict(), key=o.key) for o in refuted], f, indent=1)
             for o in refuted:
@@ -122,7 +123,7 @@ class Report:
             for o in incon:
                 out.append("ANALYSIS-INCONCLUSIVE property=%s %s at %s: %s%s" % (self.prop, o.rule, o.site, o.text, (" -- " + o.detail) if o.detail else ""))
         else:
-            vf = os.path.join(VERIF, "evidence", "%s.violations.json" % self.prop)
+            vf = os.path.join(EVDIR, "%s.violations.json" % self.prop)
             if os.path.exists(vf):
                 os.remove(vf)
         self.write_evidence(code, len(refuted))
@@ -176,7 +177,7 @@ class Report:
             "wall_s": round(time.time() - self.t0, 3),
             "violations": nviol,
         }
-        path = os.path.join(VERIF, "evidence", "%s.json" % self.prop)
+        path = os.path.join(EVDIR, "%s.json" % self.prop)
         os.makedirs(os.path.dirname(path), exist_ok=True)
         with open(path, "w") as f:
             json.dump(ev, f, indent=1, default=str)
